@@ -1,10 +1,165 @@
 import PV.C06.Model
 import PV.C06.Spec
+import PV.C06.Lemmas
+import PV.C06.NumLemmas
 import PV.Gen.C06Tables
-namespace PV.C06
+/-
+  C06 — property theorems: string, bytes and numeric literals decode to their Python values.
 
+  Reading guide.  `Agree rel m s` (Lemmas.lean) says: the model result `m` and the reference result
+  `s` either both succeed with `rel`-related values, or the reference rejects (`none`) and the
+  model returns a Rust error that is not a panic.  `LookupOk lookup` is the only thing assumed about
+  the `\N{…}` name table (a parameter): names longer than 88 bytes are unknown and results are
+  scalar values.  `fffd` is the documented representation difference (a lone surrogate escape is
+  stored as U+FFFD).  A body "is a Rust `str`" when it contains no surrogate: `∀ x ∈ body, fffd x = x`.
+-/
+namespace PV.C06
+open Spec
+
+/-! ### escape decoding: model = reference, for ALL bodies -/
+
+/-- For every non-f-string kind (text or bytes, raw or cooked), every body and every start
+    location: the value `StringParser::parse` builds is the reference value of the literal
+    (`storedAs`: bytes as they are; text with surrogates replaced by U+FFFD, `u` marker from the
+    kind), and the reference rejects exactly when the parser reports a (non-panic) error. -/
+theorem decode_eq_spec (lookup : List Nat → Option Nat) (hl : LookupOk lookup) (kind : Kind)
+    (_hk : kind.isAnyFString = false) (body : List Nat) (hbody : ∀ x ∈ body, fffd x = x) (loc : Nat) :
+    Agree (fun v items => v = storedAs kind items)
+      (decode lookup kind body loc) (Spec.decode lookup kind.isAnyBytes kind.isRaw body) :=
+  decode_agree lookup hl kind body hbody loc
+
+/-- No `unwrap`, `char::from_u32(..).unwrap()` or checked `u32` operation in the escape decoder can
+    fail: the decoder never returns the model's `panic` outcome. -/
+theorem decode_no_panic (lookup : List Nat → Option Nat) (hl : LookupOk lookup) (kind : Kind)
+    (body : List Nat) (hbody : ∀ x ∈ body, fffd x = x) (loc : Nat) (e : Err)
+    (h : decode lookup kind body loc = .error e) : e.kind ≠ .panic := by
+  have := decode_agree lookup hl kind body hbody loc
+  rw [h] at this
+  cases hs : Spec.decode lookup kind.isAnyBytes kind.isRaw body with
+  | none => rw [hs] at this; exact this
+  | some v => rw [hs] at this; exact this.elim
+
+-- non-vacuity: a body with every kind of escape, text and bytes
+example : decode (fun n => if n = [65] then some 8226 else none) .str
+    [97, 92, 110, 92, 120, 52, 49, 92, 117, 100, 56, 48, 48, 92, 78, 123, 65, 125, 92, 55, 55, 55, 92, 113, 92, 10] 1
+    = .ok (.str [97, 10, 65, 0xFFFD, 8226, 511, 92, 113] false) := by decide
+example : Spec.decode (fun n => if n = [65] then some 8226 else none) false false
+    [97, 92, 110, 92, 120, 52, 49, 92, 117, 100, 56, 48, 48, 92, 78, 123, 65, 125, 92, 55, 55, 55, 92, 113, 92, 10]
+    = some [97, 10, 65, 0xD800, 8226, 511, 92, 113] := by decide
+example : decode (fun _ => none) .bytes [92, 55, 55, 55, 92, 117, 92, 120, 102, 70] 2
+    = .ok (.bytes [255, 92, 117, 255]) := by decide
+example : ∃ e, decode (fun _ => none) .str [92, 120, 52] 1 = .error e ∧ e.kind = .unicodeError :=
+  ⟨_, by decide, rfl⟩
+
+/-! ### behaviourally extracted tables (regenerated from the real parser on every run) -/
+
+/-- The one-character escape table of the real parser (every ASCII `c` × {str, u, bytes, r, rb},
+    obtained by running the parser) is the reference table. -/
 theorem escape_table_eq : Gen.escapeTable = Spec.escapeTable := by decide +kernel
 
-theorem prefix_table_eq : Gen.prefixTable = Spec.prefixTable := by decide +kernel
+/-- The full prefix statement: what the real parser recognises for every 1- and 2-letter prefix
+    over `bBfFrRuU` is what the reference says. -/
+def prefix_table_full : Prop := Gen.prefixTable = Spec.prefixTable
+
+/-- … which holds for every row except `U` (known finding `kind-marker-uppercase-U`): -/
+theorem prefix_table_eq_partial :
+    Gen.prefixTable.filter (fun r => r.1 != [85]) = Spec.prefixTable.filter (fun r => r.1 != [85]) := by
+  decide +kernel
+
+/-- … and fails on the unchanged code: the real parser marks `U'…'` with kind `u` (row 6), the
+    reference treats it as a plain text literal (row 0). -/
+theorem prefix_table_fails : ¬ prefix_table_full := by
+  unfold prefix_table_full; decide +kernel
+
+theorem prefix_table_witness :
+    Gen.prefixTable.lookup [85] = some (some 6) ∧ Spec.prefixTable.lookup [85] = some (some 0) := by
+  decide +kernel
+
+/-! ### prefix recognition of the model (`lex_identifier` window test + `StringKind::try_from`) -/
+
+/-- full statement: for every candidate prefix `p` of at most two characters in front of a quote,
+    the model recognises exactly the reference prefixes with the reference meaning -/
+def detect_full : Prop :=
+  ∀ (p : List Nat) (q : Nat) (rest : List Nat), p.length ≤ 2 → isQuote q = true →
+    (∀ c ∈ p, isQuote c = false) →
+    (detectString (p ++ q :: rest)).map Kind.toPrefix = Spec.prefixKind p
+
+theorem detect_eq_spec_partial (p : List Nat) (q : Nat) (rest : List Nat) (hp : p.length ≤ 2)
+    (hq : isQuote q = true) (hnq : ∀ c ∈ p, isQuote c = false) (hU : p ≠ [85]) :
+    (detectString (p ++ q :: rest)).map Kind.toPrefix = Spec.prefixKind p := by
+  match p, hp with
+  | [], _ => simp [detectString, hq, Spec.prefixKind, Kind.toPrefix]
+  | [c], _ =>
+    have hc : isQuote c = false := hnq c (by simp)
+    simp only [List.cons_append, List.nil_append, detectString, hc, hq, Bool.false_eq_true, if_false, if_true]
+    exact kindOfChar_spec c (fun h => hU (by rw [h]))
+  | [c1, c2], _ =>
+    have h1 : isQuote c1 = false := hnq c1 (by simp)
+    have h2 : isQuote c2 = false := hnq c2 (by simp)
+    simp only [List.cons_append, List.nil_append, detectString, h1, h2, hq, Bool.false_eq_true, if_false, if_true]
+    exact kindOfChars_spec c1 c2
+
+/-- the `U` row: the model (like the code) gives the `u` marker, the reference does not -/
+theorem detect_fails : ¬ detect_full := by
+  intro h
+  have := h [85] 39 [] (by decide) (by decide) (by decide)
+  revert this
+  decide
+
+example : (detectString [82, 98, 39, 39]).map Kind.toPrefix = Spec.prefixKind [82, 98] := by decide
+
+/-! ### implicit concatenation (`parse_strings` without f-strings) -/
+
+/-- Adjacent literals: `parse_strings` answers (never the third, f-string, branch); mixing bytes and
+    text is rejected by both; otherwise the values are concatenated in order and the `u` marker is
+    that of the first literal. -/
+theorem concat_spec (lookup : List Nat → Option Nat) (hl : LookupOk lookup) (toks : List StrTok)
+    (hne : toks ≠ []) (hf : ∀ t ∈ toks, t.kind.isAnyFString = false)
+    (hs : ∀ t ∈ toks, ∀ x ∈ t.body, fffd x = x) :
+    ∃ r, parseStrings lookup toks = some r ∧
+      Agree (fun v b => v = storedConcat b) r (Spec.concat lookup (toks.map partOf)) :=
+  concat_agree lookup hl toks hne hf hs
+
+example : parseStrings (fun _ => none)
+    [⟨0, [97], .unicode, false, 4⟩, ⟨5, [92, 110], .rawStr, false, 10⟩, ⟨11, [92, 110], .str, true, 19⟩]
+    = some (.ok (.str [97, 92, 110, 10] true)) := by decide
+example : ∃ e, parseStrings (fun _ => none) [⟨0, [97], .str, false, 3⟩, ⟨4, [98], .bytes, false, 8⟩]
+    = some (.error e) := ⟨_, by decide⟩
+
+/-! ### numbers -/
+
+/-- Whenever the number scanner reads a whole text as an integer token, its value is the
+    positional value of the digits in the base given by the prefix, underscores ignored
+    (arbitrary precision). -/
+theorem int_value (text : List Nat) (loc v : Nat)
+    (h : lexNumber text loc = .ok (.int v, [])) : v = Spec.intValue text :=
+  int_value' text loc v h
+
+example : lexNumber [48, 88, 95, 102, 70, 95, 49] 0 = .ok (.int 4081, []) := by decide
+example : lexNumber [49, 95, 48, 48, 48] 7 = .ok (.int 1000, []) := by decide
+
+/-- Float and imaginary literals: the text handed to `f64::from_str` is the numeral with the
+    underscores removed and the exponent marker in lower case (for an imaginary literal: the
+    numeral without its `j`).  That `f64::from_str` rounds correctly is trusted and sampled
+    (against exact arithmetic `PV.Dec.ofDecimal` and CPython) — hence `_partial`. -/
+theorem float_scan_partial (text : List Nat) (loc : Nat) (t : List Nat) :
+    (lexNormalNumber text loc = .ok (.float t, []) → t = Spec.cleanFloat text) ∧
+    (lexNormalNumber text loc = .ok (.complex t, []) →
+      ∃ body j, (j = 106 ∨ j = 74) ∧ text = body ++ [j] ∧ t = Spec.cleanFloat body) := by
+  constructor
+  · intro h
+    rcases lexNormalNumber_shape text loc _ _ h with ⟨v, hv, _⟩ | ⟨t', pre, hv, hp, ht⟩ | ⟨t', pre, j, hv, _⟩
+    · cases hv
+    · cases hv; rw [List.append_nil] at hp; rw [hp]; exact ht
+    · cases hv
+  · intro h
+    rcases lexNormalNumber_shape text loc _ _ h with ⟨v, hv, _⟩ | ⟨t', pre, hv, _⟩ | ⟨t', pre, j, hv, hj, hp, ht⟩
+    · cases hv
+    · cases hv
+    · cases hv; exact ⟨pre, j, hj, hp, ht⟩
+
+example : lexNormalNumber [49, 95, 48, 46, 53, 69, 43, 48, 95, 49] 0
+    = .ok (.float [49, 48, 46, 53, 101, 43, 48, 49], []) := by decide
+example : lexNormalNumber [49, 101, 53, 74] 0 = .ok (.complex [49, 101, 53], []) := by decide
 
 end PV.C06
